@@ -57,6 +57,37 @@ def real_load(mm, text):
         return ('error', e)
 
 
+class no_comment_position_cache:
+    """root-cause model for a known finding (context manager): Arpeggio's
+    Match.parse caches the position reached after skipping comments per input
+    position only (`parser.comment_positions`), ignoring the whitespace state;
+    inside the block Match.parse is the same algorithm without that cache."""
+
+    def __enter__(self):
+        import arpeggio
+        self._real = arpeggio.Match.parse
+
+        def parse(m, parser):
+            if parser.skipws and not parser.in_lex_rule:
+                pos = parser.position
+                ws = parser.ws
+                i = parser.input
+                length = len(i)
+                while pos < length and i[pos] in ws:
+                    pos += 1
+                parser.position = pos
+            if not parser.in_parse_comments and not parser.in_lex_rule:
+                m._parse_comments(parser)
+            result = m._parse(parser)
+            if not m.suppress:
+                return result
+        arpeggio.Match.parse = parse
+
+    def __exit__(self, *a):
+        import arpeggio
+        arpeggio.Match.parse = self._real
+
+
 class Formulas:
     """impl / patched / ref formulas of one grammar over one SymInput"""
 
